@@ -43,6 +43,8 @@ type G1Spec struct {
 	ExtraKey func(w *World) string
 	WithRefs bool
 	Note     string
+	// NoPlainBatches: the batches of Alpha are only executed as part of macro steps listed in Steps.
+	NoPlainBatches bool
 	// Share is this search's fraction of the property's time budget when several searches decide a property
 	// (0: an equal share).
 	Share float64
@@ -70,6 +72,7 @@ type g1Succ struct {
 	Infra     string      `json:"infra,omitempty"`
 	Killed    int         `json:"killed,omitempty"`
 	Terminals int         `json:"terminals,omitempty"`
+	Comp      [2]int      `json:"comp,omitempty"` // full / partial compactions of the store since it was (re)opened
 }
 
 type g1Resp struct {
@@ -106,7 +109,7 @@ func countSteps(path []string) (nB, nK, nR, nH int) {
 func (sp *G1Spec) candidates(path []string) []string {
 	nB, nK, nR, nH := countSteps(path)
 	var out []string
-	if nB < sp.MaxB {
+	if nB < sp.MaxB && !sp.NoPlainBatches {
 		for i := range sp.Alpha {
 			out = append(out, fmt.Sprintf("B%d", i))
 		}
@@ -114,6 +117,9 @@ func (sp *G1Spec) candidates(path []string) []string {
 	for _, st := range sp.Steps {
 		if st == "R" && nR >= sp.MaxR {
 			continue
+		}
+		if st[0] == 'B' && nB >= sp.MaxB {
+			continue // a macro step that starts with a batch
 		}
 		if strings.HasSuffix(st, "+") && nH >= sp.MaxH {
 			continue
@@ -227,6 +233,10 @@ func g1Expand(req g1Req) (resp g1Resp) {
 				key += fmt.Sprintf(" used:B%d,K%d,R%d,H%d", nB, nK, nR, nH) // remaining budgets are part of the state
 				s.Key = shortHash(key)
 				s.Heights = w.Heights()
+				if w.store != nil && !w.closedStore {
+					f, p := storeCounters(w)
+					s.Comp = [2]int{f, p}
+				}
 				s.Viols = sp.Check(w, full)
 				if w.infra != "" {
 					s.Infra = w.infra
@@ -282,6 +292,9 @@ func (w *World) CanStep(st string) bool {
 	if w.infra != "" {
 		return false
 	}
+	if i := strings.Index(st, "/"); i >= 0 {
+		return w.CanStep(st[:i])
+	}
 	switch {
 	case st[0] == 'B':
 		return w.pending == nil && !w.closedColl
@@ -313,6 +326,7 @@ type g1Node struct {
 
 type g1Stats struct {
 	States, Transitions, Infra, KnownPruned, Killed, Skipped, Terminals int
+	AfterFull, AfterPartial                                             int // transitions into a state whose store has done a full / partial compaction
 	Shapes                                                              map[[5]int]int
 	PerCfg                                                              map[string][2]int
 	Depth                                                               int
@@ -420,6 +434,12 @@ func runG1(prop, tier string) (*g1Stats, *G1Spec) {
 				st.KnownPruned++
 			}
 			st.Shapes[s.Heights]++
+			if s.Comp[0] > 0 {
+				st.AfterFull++
+			}
+			if s.Comp[1] > 0 {
+				st.AfterPartial++
+			}
 			if seen[node.cfg][s.Key] {
 				continue
 			}
